@@ -137,6 +137,7 @@ class Run:
         self.selfcheck = {"vectors": 0, "mismatches": 0}
         self.solver_time = 0.0
         self.extra_cov = {}
+        self.level = "other"
 
     # ----------------------------------------------------------------- construction helpers
     def quick(self):
@@ -524,7 +525,11 @@ class Run:
             "known_findings_reported": [m for m in self.messages if m.startswith("KNOWN-FINDING")],
         }
         cov.update(self.extra_cov)
-        ev = {"property_id": self.pid, "tier": self.tier, "seed": self.seed, "level": "other", "coverage": cov,
+        if self.level == "translation_validation":
+            cov.setdefault("programs", len([o for o in obs if len(o.calls) >= 2]))
+            cov["disagreements_checked"] = len([o for o in obs if o.outcome is not None and o.outcome.status == "sat"
+                                                and o.kind != "witness"])
+        ev = {"property_id": self.pid, "tier": self.tier, "seed": self.seed, "level": self.level, "coverage": cov,
               "assumptions": self.assumptions, "wall_s": round(time.time() - self.t0, 2),
               "violations": len([o for o in obs if o.verdict == "violation"])}
         with open(os.path.join(EVID, self.pid + ".json"), "w") as fh:
